@@ -32,24 +32,33 @@ def search(ctx, focus=(), deep=1):
                 except Exception:
                     break
                 frames = protos.frames(code)
-                inst = protos.fresh(d)
-                got_code = False
                 ctx.count((d.name, tuple(sorted(p.items())), n))
                 F = dict(p, protocol=d.name, repeat_n=n)
-                for k, f in enumerate(frames):
-                    o = hc.outcome(protos, inst, f, names, d.frequency)
-                    realenv.drain_process()
-                    if o == want:
-                        got_code = True
-                    elif o[0] == 'ok':
-                        ctx.violation(d.name, 'sequence-other-code', '%s %s n=%d frame %d/%d decodes as %s' % (d.name, p, n, k, len(frames) - 1, dict(o[1])), dict(F, frame=k), input=dict(params=p, n=n, frame=k))
+                # the sequence back to back, and at on-air pace (the clock moves on by each frame's own duration before the
+                # next one arrives - a held key takes longer than any repeat timeout)
+                for pace in ('back-to-back', 'on-air'):
+                    inst = protos.fresh(d)
+                    got_code = False
+                    bad = False
+                    for k, f in enumerate(frames):
+                        o = hc.outcome(protos, inst, f, names, d.frequency)
+                        realenv.drain_process()
+                        if pace == 'on-air':
+                            realenv.clock.advance(sum(abs(x) for x in f))
+                        if o == want:
+                            got_code = True
+                        elif o[0] == 'ok':
+                            ctx.violation(d.name, 'sequence-other-code', '%s %s n=%d frame %d/%d (%s) decodes as %s' % (d.name, p, n, k, len(frames) - 1, pace, dict(o[1])), dict(F, frame=k), input=dict(params=p, n=n, frame=k, pace=pace))
+                            bad = True
+                            break
+                        elif o[1] not in REPEAT_OK:
+                            ctx.violation(d.name, 'sequence-error', '%s %s n=%d frame %d/%d (%s) raised %s' % (d.name, p, n, k, len(frames) - 1, pace, o[1]), dict(F, frame=k, err=o[1]), input=dict(params=p, n=n, frame=k, pace=pace))
+                            bad = True
+                            break
+                    if not bad and not got_code:
+                        ctx.violation(d.name, 'sequence-no-code', '%s %s n=%d (%s): no frame of the sequence yields the code' % (d.name, p, n, pace), F, input=dict(params=p, n=n, pace=pace))
+                    if bad:
                         break
-                    elif o[1] not in REPEAT_OK:
-                        ctx.violation(d.name, 'sequence-error', '%s %s n=%d frame %d/%d raised %s' % (d.name, p, n, k, len(frames) - 1, o[1]), dict(F, frame=k, err=o[1]), input=dict(params=p, n=n, frame=k))
-                        break
-                else:
-                    if not got_code:
-                        ctx.violation(d.name, 'sequence-no-code', '%s %s n=%d: no frame of the sequence yields the code' % (d.name, p, n), F, input=dict(params=p, n=n))
                 # every single frame on a decoder without history
                 for k, f in enumerate(frames):
                     o = hc.outcome(protos, protos.fresh(d), f, names, d.frequency)
